@@ -120,6 +120,12 @@ def directed_periodic(base):
         + [("call", "c2"), ("step", "c2"), ("step", "c2")] + g(6),
         # cancel while running
         [("timer", "env")] + g(4) + [("call", "k1"), ("step", "k1")] + g(6),
+        # an early run that is still executing when the instance's scheduled time passes: the next instance
+        # must wait for ITS time (a timer object re-used across ticks must not carry the old expiry over)
+        [("call", "c1"), ("step", "c1"), ("step", "c1"), ("step", "g"), ("step", "g"), ("timer", "env")] + g(8),
+        # ... and a cancel that arrives during that early run ends the job: no further run
+        [("call", "c1"), ("step", "c1"), ("step", "c1"), ("step", "g"), ("step", "g"), ("timer", "env"),
+         ("call", "k1"), ("step", "k1")] + g(8),
     ]
     out = []
     for i, p in enumerate(plans):
@@ -172,7 +178,8 @@ def run(tier):
     one_off = directed_scenarios(1) + gated_scenarios("Scen_Scheduler.cfg", False, n_o, 1000, rnd)
     # the name-reuse schedules need the "both ready" select (goroutine held before its select): repeat them
     one_off += [dict(s, sc=s["sc"] + 40 * k) for k in (1, 2, 3) for s in directed_scenarios(1)[12:]]
-    periodic = directed_periodic(90000) + gated_scenarios("Scen_Scheduler_periodic.cfg", True, n_p, 100000, rnd)
+    periodic = directed_periodic(90000) + [dict(s, sc=s["sc"] + 100 * k) for k in (1, 2) for s in directed_periodic(90000)[8:]]
+    periodic = periodic + gated_scenarios("Scen_Scheduler_periodic.cfg", True, n_p, 100000, rnd)
     free = free_scenarios(n_f, 200000, rnd)
     vf.conformance(v, one_off + free, driver, "Trace_Scheduler", "Trace_Scheduler.cfg", sig_of, nontrivial,
                    dfs=True, chunk=1500)
